@@ -158,17 +158,43 @@ def step(M, op):
     raise ValueError(op)
 
 
+def safe_dump(M):
+    try:
+        return dump(M)
+    except Unmodelled as e:
+        return "unmodelled:%s" % e
+    except Exception as e:
+        return "raise:%s" % type(e).__name__
+
+
+def ws_step(ws, op):
+    """apply a (normalized, index-based) op to the workspace `ws` (list of live MemoryMaps, all kept
+    alive); returns the result."""
+    m = op.get("m", 0)
+    if m >= len(ws):
+        return "nomap"
+    k = op["k"]
+    try:
+        if k == "fork":
+            ws.append(ws[m].copy())
+            return "ok"
+        if k == "mergecopy":
+            if op["src"] >= len(ws):
+                return "nomap"
+            ws[m].merge(ws[op["src"]].copy())
+            return "ok"
+    except Exception as e:
+        return "raise:%s" % type(e).__name__
+    ws[m], res = step(ws[m], op)
+    return res
+
+
 def run(ops):
-    """list of {"res":…, "zones":…} after every op."""
-    M = MemoryMap()
+    """ops: normalized history.  list of {"res":…, "maps":[zones of every live map]} after every op,
+    and the final workspace."""
+    ws = [MemoryMap()]
     out = []
     for op in ops:
-        M, res = step(M, op)
-        try:
-            zones = dump(M)
-        except Unmodelled as e:
-            zones = "unmodelled:%s" % e
-        except Exception as e:
-            zones = "raise:%s" % type(e).__name__
-        out.append({"res": res, "zones": zones})
-    return out, M
+        res = ws_step(ws, op)
+        out.append({"res": res, "maps": [safe_dump(M) for M in ws]})
+    return out, ws
